@@ -35,6 +35,7 @@ type EOp struct {
 	Scraped int64    `json:"scraped,omitempty"`
 	Total   int64    `json:"total,omitempty"`
 	Ms      int      `json:"ms,omitempty"`
+	Reconf  bool     `json:"reconfigure,omitempty"` // prune: the kept jobs get new scrape settings (new job objects, new clients)
 }
 type ECase struct {
 	Workers int   `json:"workers"`
@@ -64,6 +65,26 @@ type exploreRig struct {
 	nProbes int
 	drain   bool
 	lastEv  time.Time
+	curGen  int    // generation of the job objects the scrape manager hands out now
+	stale   string // a probe that was sent through a client of an earlier generation
+	reconf  time.Time
+}
+
+// genRT is the client transport of one generation of job objects
+type genRT struct {
+	rig *exploreRig
+	gen int
+}
+
+func (g *genRT) RoundTrip(req *http.Request) (*http.Response, error) {
+	g.rig.mu.Lock()
+	// a probe that fetched its job just before the reload may still arrive with the old client; one that
+	// starts three retry intervals later must not
+	if g.gen != g.rig.curGen && g.rig.stale == "" && time.Since(g.rig.reconf) > 36*time.Millisecond {
+		g.rig.stale = fmt.Sprintf("a probe of %s was sent with the client and settings of the job as configured %d reload(s) ago", req.URL.Host, g.rig.curGen-g.gen)
+	}
+	g.rig.mu.Unlock()
+	return g.rig.RoundTrip(req)
 }
 
 func (r *exploreRig) add(e eEvent) {
@@ -109,7 +130,7 @@ func runExploreCase(c *ECase) (line string, viol []Violation, info map[string]in
 	}
 	rig := &exploreRig{lastEv: time.Now()}
 	for _, j := range []string{"job0", "job1"} {
-		sm.GetJob(j).Cli = &http.Client{Transport: rig}
+		sm.GetJob(j).Cli = &http.Client{Transport: &genRT{rig, 0}}
 	}
 	exp := explore.New(sm, prometheus.NewRegistry(), lg)
 	const interval = 12 * time.Millisecond
@@ -230,9 +251,27 @@ func runExploreCase(c *ECase) (line string, viol []Violation, info map[string]in
 				b.Reset()
 				b.WriteString("global:\n  scrape_interval: 15s\nscrape_configs: []\n")
 			}
+			if op.Reconf {
+				// same jobs, other scrape settings: the scrape manager builds new job objects
+				b.Reset()
+				b.WriteString(strings.Replace(sidecarCfg, "scrape_timeout: 2s", "scrape_timeout: 3s", -1))
+			}
 			cm2 := prom.NewConfigManager()
 			if err := cm2.ReloadFromRaw([]byte(b.String())); err != nil {
 				return "", nil, nil, err
+			}
+			if op.Reconf {
+				_ = sm.ApplyConfig(cm2.ConfigInfo())
+				rig.mu.Lock()
+				rig.curGen++
+				rig.reconf = time.Now()
+				g := rig.curGen
+				rig.mu.Unlock()
+				for _, j := range []string{"job0", "job1"} {
+					if ji := sm.GetJob(j); ji != nil {
+						ji.Cli = &http.Client{Transport: &genRT{rig, g}}
+					}
+				}
 			}
 			_ = exp.ApplyConfig(cm2.ConfigInfo())
 		case "release":
@@ -272,6 +311,9 @@ func runExploreCase(c *ECase) (line string, viol []Violation, info map[string]in
 	scan()
 	evs := append([]eEvent{}, rig.log...)
 	rig.mu.Unlock()
+	if rig.stale != "" {
+		addViol("staleJob", "C20/staleJob", rig.stale)
+	}
 	// liveness + estimate: every listed target that was asked for now has the estimate of its successful probe
 	for h := range listed {
 		if !asked[h] {
@@ -332,7 +374,11 @@ func genExploreCase(r *Rng) *ECase {
 					js = append(js, j)
 				}
 			}
-			c.Ops = append(c.Ops, EOp{Kind: "prune", Jobs: js})
+			op := EOp{Kind: "prune", Jobs: js}
+			if r.Chance(40) {
+				op.Jobs, op.Reconf = []int{0, 1}, true
+			}
+			c.Ops = append(c.Ops, op)
 		case k < 10:
 			h := univ[r.Intn(len(univ))]
 			if len(cur) > 0 && r.Chance(80) {
